@@ -773,6 +773,11 @@ class Configuration(_Configuration):
         if not self.dispatch(self._structure[name]['sections'][location]):
             return False
 
+        if self.parser.end != '}':
+            # dispatch also returns when the text ends: a file (or an API command) cut short inside a section was
+            # accepted with whatever had been read so far
+            return self.error.set(f'section {location} is not closed, {self.scope.location()}')
+
         if not instance.post():
             return False
 
@@ -829,6 +834,10 @@ class Configuration(_Configuration):
 
         if not self.dispatch(name):
             return False
+
+        if self.parser.end == '}':
+            # a closing brace with no section open: dispatch returned and the rest of the text was never read
+            return self.error.set('closing too many parenthesis')
 
         instance = self._structure[name].get('class', None)
         if instance is not None:
